@@ -26,17 +26,17 @@ import (
 // restarts it through the real OnStart/catchupReplay and lets the network go on.
 
 type CrashPlan struct {
-	Name    string
-	N       int
-	Victim  int
-	Flush   bool // TrieDirtyDisabled (state flushed every block) vs default dirty cache
-	Heights uint64
-	WithTxs bool
-	Torn    bool // WAL image = synced prefix + part of the unsynced/next record (torn tail)
+	Name       string
+	N          int
+	Victim     int
+	Flush      bool // TrieDirtyDisabled (state flushed every block) vs default dirty cache
+	Heights    uint64
+	WithTxs    bool
+	Torn       bool // WAL image = synced prefix + part of the unsynced/next record (torn tail)
 	VotesFirst bool // the victim is sent a round's block parts only after it has seen +2/3 prevotes (so that its
 	// prevote and precommit are queued together)
 	Rotate  int64 // WAL head size limit: the WAL rotates (checked after every stimulus); 0 = no rotation
-	Second  bool // a second crash during recovery / the following heights: SecondQ durable units after the restart
+	Second  bool  // a second crash during recovery / the following heights: SecondQ durable units after the restart
 	SecondQ int
 	Late    bool // crash at the LAST instant with durable prefix p: just before unit p+1 is written (everything the
 	// node did since unit p - handled and gossiped messages included - is lost with the unsynced buffers)
@@ -572,7 +572,6 @@ func GoldenLen(plan CrashPlan) (total int, start int, err error) {
 	return net.Nodes[plan.Victim].Dur.Len(), start, nil
 }
 
-
 // walHasEndHeight reports whether the WAL image contains the end marker of height h.
 func walHasEndHeight(img []byte, h int64) bool {
 	dec := consensus.NewWALDecoder(bytesReader(img))
@@ -588,7 +587,6 @@ func walHasEndHeight(img []byte, h int64) bool {
 }
 
 func bytesReader(b []byte) io.Reader { return bytes.NewReader(b) }
-
 
 // votesFirstFilter delays the block parts sent to node v until it holds a +2/3 prevote majority of its round.
 func votesFirstFilter(net *Net, v int) {
@@ -612,7 +610,6 @@ func votesFirstFilter(net *Net, v int) {
 	}
 }
 
-
 // walHasOwn reports whether the WAL image contains an own (internal) vote/proposal with the given height/round/type.
 func walHasOwn(img []byte, k signKey) bool {
 	dec := consensus.NewWALDecoder(bytesReader(img))
@@ -628,7 +625,6 @@ func walHasOwn(img []byte, k signKey) bool {
 		}
 	}
 }
-
 
 // rotatedImage builds the WAL image of a rotating group at crash point p: every file with the size it had at the
 // last fsync (or rotation) at or before p. The head file of that moment may have been rotated since: it is then
